@@ -7,7 +7,6 @@ import (
 
 	"github.com/filecoin-project/go-f3/gpbft"
 	"github.com/filecoin-project/go-f3/sim/signing"
-	"github.com/filecoin-project/go-state-types/big"
 )
 
 // simEC captures the complete simulated EC state for all instances performed in
@@ -129,25 +128,13 @@ func (eci *ECInstance) validateDecision(decision *gpbft.Justification) error {
 		return fmt.Errorf("decided tipset with wrong base: %v", decision.Vote.Value.Base())
 	}
 
-	// Extract signers.
-	justificationPower := gpbft.NewStoragePower(0)
-	signers := make([]int, 0)
-	powerTable := eci.PowerTable
-	if err := decision.Signers.ForEach(func(bit uint64) error {
-		if int(bit) >= len(powerTable.Entries) {
-			return fmt.Errorf("invalid signer index: %d", bit)
-		}
-		justificationPower = big.Add(justificationPower, powerTable.Entries[bit].Power)
-		signers = append(signers, int(bit))
-		return nil
-	}); err != nil {
-		return fmt.Errorf("failed to iterate over signers: %w", err)
+	// Extract signers and check that they hold a strong quorum of the instance's
+	// (scaled) power, exactly as message and certificate validation do.
+	justificationPower, signers, err := decision.GetSigners(eci.PowerTable)
+	if err != nil {
+		return fmt.Errorf("failed to get decision signers: %w", err)
 	}
-	// Check signers have strong quorum
-	strongQuorum := gpbft.NewStoragePower(0)
-	strongQuorum = big.Mul(strongQuorum, gpbft.NewStoragePower(2))
-	strongQuorum = big.Div(strongQuorum, gpbft.NewStoragePower(3))
-	if justificationPower.LessThan(strongQuorum) {
+	if !gpbft.IsStrongQuorum(justificationPower, eci.PowerTable.ScaledTotal) {
 		return fmt.Errorf("decision lacks strong quorum: %v", decision)
 	}
 	// Verify aggregate signature
